@@ -32,19 +32,24 @@ func roundTrip(route string, typ reflect.Type, rv reflect.Value) (target reflect
 	if o.Panicked() || o.Err != nil {
 		return target, "NewUnfolder", o
 	}
+	stage, o = roundTripInto(u, route, rv)
+	return target, stage, o
+}
+
+// roundTripInto folds rv into the (prepared) unfolder u, directly or through a codec.
+func roundTripInto(u *gotype.Unfolder, route string, rv reflect.Value) (stage string, o Outcome) {
 	if route == "direct" {
-		o = foldTo(rv, u)
-		return target, "Fold", o
+		return "Fold", foldTo(rv, u)
 	}
 	cd := codecs[route]
 	var buf bytes.Buffer
 	o = foldTo(rv, cd.NewVisitor(&buf, EncOpts{}))
 	if o.Panicked() || o.Err != nil {
-		return target, "Fold", o
+		return "Fold", o
 	}
 	data := buf.Bytes()
 	o = guard(func() error { return cd.Parse(data, u) })
-	return target, "Parse(" + fmt.Sprintf("%q", trunc(data)) + ")", o
+	return "Parse(" + fmt.Sprintf("%q", trunc(data)) + ")", o
 }
 
 func routeRules(route string) model.Rules {
